@@ -245,7 +245,7 @@ char *qstrreplace(const char *mode, char *srcstr, const char *tokstr,
     newstr = newp = srcp = tokenp = retp = NULL;
 
     char method = mode[0], memuse = mode[1];
-    int maxstrlen, tokstrlen;
+    size_t maxstrlen, tokstrlen;
 
     /* Put replaced string into malloced 'newstr' */
     if (method == 't') { /* Token replace */
